@@ -343,9 +343,15 @@ def run(repo, rep, tier):  # noqa: F811 -- round-5 shape rules appended to the r
     if getattr(rep, "borrowed", False):
         return
     from ..core import round5 as _r5
+    from ..core.report import Only as _O5
+    from . import c13 as _c13b
+    _c13b._codecs(repo, _O5(rep, {"R13.5"}))
     _r5.codec_wrapper_shape(repo, rep, "R15.11")
 
 
 _ADDR5B = " R15.11: the codec encode / decode wrapper returns exactly the registry expression of the root shape (assigned once from <Registry>.get(ValueSpec(type=shape_type, expression='value', could_be_none=could_be_none))), wrapped once in the post-encoder when there is one; nothing is spliced around it."
 EXPLANATION += _ADDR5B
 LEVEL_TEXT += _ADDR5B
+_ADDR5D = ' Borrowed: R13.5.'
+EXPLANATION += _ADDR5D
+LEVEL_TEXT += _ADDR5D
